@@ -1,17 +1,15 @@
 (* The life cycle of the promises of the sub-pushes: a promise PSub h i k is created by attempt k of sub-push (h,i),
    is then pending in exactly one place (the open batch or the portion of one worker) or completed (in the store),
-   and the sub-push waits for it until it has seen it completed.  Used by the liveness statement (IngestDrainAll.v)
-   and by the distinctness of the rows of a block (BlocksNoDup.v). *)
+   and the sub-push waits for it until it has seen it completed.  Used by the liveness statement (IngestLiveAll.v)
+   and by the distinctness of the rows of a block (IngestPromises.v). *)
 From Coq Require Import List NArith ZArith Bool Lia Arith Permutation.
-From Qryn Require Import model.Ingest model.PushHandler model.IngestSpec proofs.IngestBase proofs.IngestAck
+From Qryn Require Import model.Ingest model.PushHandler model.IngestSpec model.IngestFresh proofs.IngestBase proofs.IngestAck
   proofs.IngestSpecProofs proofs.IngestHandler.
 Import ListNotations.
 
 Definition is_psub (p : pid) : bool := match p with PSub _ _ _ => true | PEnv _ => false end.
 
-(* the pending sub-push promises of one worker, with their requests *)
-Definition pend (sv : svc) : list (pid * req) :=
-  results sv ++ match inflight sv with Some po => p_res po | None => [] end.
+(* the pending sub-push promises of one worker (pend: model/IngestFresh.v) *)
 Definition lives (sv : svc) : list pid := filter is_psub (map fst (pend sv)).
 Definition LL (l : list svc) : list pid := concat (map lives l).
 
@@ -102,32 +100,6 @@ Qed.
 Definition sub_at (H : list handler) (h i : nat) : option subpush :=
   match nth_error H h with Some hd => nth_error (h_subs hd) i | None => None end.
 
-Record LI (g : gstate) : Prop := {
-  li_cur : forall h i sp k, sub_at (hs g) h i = Some sp -> sp_cur sp = Some k ->
-             sp_used sp = N.succ k /\ (In (PSub h i k) (LL (svcs g)) \/ in_store (PSub h i k) (store g) = true);
-  li_live : forall s sv h i k r, nth_error (svcs g) s = Some sv -> In (PSub h i k, r) (pend sv) ->
-             exists sp, sub_at (hs g) h i = Some sp /\ sp_cur sp = Some k /\ sp_req sp = r /\ sp_kind sp = kd sv;
-  li_store : forall h i k, in_store (PSub h i k) (store g) = true ->
-             exists sp, sub_at (hs g) h i = Some sp /\ (k < sp_used sp)%N;
-  li_nodup : NoDup (LL (svcs g));
-  li_fresh : forall p, In p (LL (svcs g)) -> in_store p (store g) = false;
-  li_ready : forall h i sp, sub_at (hs g) h i = Some sp -> sp_result sp = None -> sp_cur sp = None -> (sp_used sp < attempts g)%N;
-  li_done : forall h i sp, sub_at (hs g) h i = Some sp -> sp_result sp <> None -> sp_cur sp = None
-}.
-
 Lemma sub_at_nil h i : sub_at [] h i = None.
 Proof. unfold sub_at. destruct h; reflexivity. Qed.
 
-Lemma LI_init cfg n : LI (ginit cfg n).
-Proof.
-  assert (E : forall l, LL (map (fun c : kind * nat * Z => svc_init (fst (fst c)) (snd (fst c)) (snd c)) l) = []).
-  { induction l as [|c l IH]; [reflexivity|]. cbn [map]. rewrite LL_cons, IH. reflexivity. }
-  constructor; cbn [ginit svcs store hs attempts]; rewrite ?E.
-  - intros h i sp k H. rewrite sub_at_nil in H. discriminate.
-  - intros s sv h i k r Hs Hin. apply nth_error_In in Hs. apply in_map_iff in Hs as (c & <- & _). destruct Hin.
-  - discriminate.
-  - constructor.
-  - intros p [].
-  - intros h i sp H. rewrite sub_at_nil in H. discriminate.
-  - intros h i sp H. rewrite sub_at_nil in H. discriminate.
-Qed.
